@@ -558,7 +558,8 @@ C18_H(cfg, run, pre) ==
         <<"C18.H.grows", run.op = "insert_absence" /\ run.ret = "ok" /\ aligned =>
               lg.time >= pre.lg.time /\ lg.time <= pre.lg.time + Len(run.args.L)>>,
         <<"C18.H.shrinks", run.op = "remove_absence" /\ run.ret = "ok" /\ aligned =>
-              lg.time = pre.lg.time - Cardinality({ a \in ToSet(pre.lg.absL) : a < pre.lg.time })>> >>
+              \* one entry fewer per listed absence step that lies inside the logs when its turn comes
+              lg.time = Len(PopAll([i \in 1..pre.lg.time |-> i], SortSeq(pre.lg.absL, LAMBDA a, b: a > b)))>> >>
 
 C16_H(cfg, run, pre) ==
   << <<"C16.H.write-ok", run.obs.write_ok>>,
